@@ -19,7 +19,7 @@ var c01Pool = []string{
 	// statics
 	"/", "/a", "/a/b", "/a.b",
 	// first-segment dynamics
-	"/a/{x}", "/a/{z}", `/a/{x:\d+}`, "/a/{x}/b", "/a/b/{x}", "/a.b/{x}", "/a/a.b/{x}", "/a/{x}.html", "/a/q{x}", "/a/b[/{x}]", "/a/{x}[/{y}]", "/b/{x}",
+	"/a/{x}", "/a/{z}", `/a/{x:\d+}`, `/a/{x:\d+}/{y}`, "/a/{x}/b", "/a/b/{x}", "/a.b/{x}", "/a/a.b/{x}", "/a/{x}.html", "/a/q{x}", "/a/b[/{x}]", "/a/{x}[/{y}]", "/b/{x}",
 	// residual dynamics
 	"/{x}", "/{x}/b", `/{x:\d+}`, "/a[/{x}]", "/a[.html]", "/[{x}]", "/a[/{x}[/{y}]]", "/{all}",
 	// multi-segment variable, no-variable optional with two segments
@@ -218,7 +218,7 @@ func c01Run(c c01Case, st *fw.Stats) []fw.Viol {
 var c01Spec = fw.Spec[c01Case]{
 	ID:    "C01",
 	Level: "model_checking",
-	Rule: "complete product: ordered route tables of <=K distinct patterns from a 26-pattern pool (every index/tier shortcut has colliding members) x method sets x request methods x all 259 paths of <=3 segments over {a,b,a.b,axb,12,q.html}; " +
+	Rule: "complete product: ordered route tables of <=K distinct patterns from a 27-pattern pool (every index/tier shortcut has colliding members) x method sets x request methods x all 259 paths of <=3 segments over {a,b,a.b,axb,12,q.html}; " +
 		"each (table,method,path) is one evaluation: Router.Match and ServeHTTP on the real router vs refmodel.Resolve; non-trivial = at least two routes qualify or the winner is not the first registered route",
 	Assume: []string{
 		"patterns and paths are drawn from the stated alphabets; larger tables are covered only as far as the small-scope hypothesis goes",
